@@ -48,18 +48,27 @@ ASSUMPTIONS = [
     "a write of a negative whole-register value is executed under a line-count bound (sys.settrace), because the current code can loop forever on it",
 ]
 FLOORS = {
-    "grouped": 0.25,
-    "has_fields": 0.5,
+    "grouped": 0.35,
+    "reversed": 0.15,
+    "rev_order": 0.08,
+    "alt_widths": 0.06,
+    "fuse": 0.12,
+    "has_fields": 0.55,
+    "has_enums": 0.35,
+    "shift_field": 0.04,
     "op:set_bf": 0.5,
-    "op:set_reg": 0.5,
-    "op:query": 0.25,
-    "roundtrip": 0.4,
-    "boundary:2^w": 0.05,
-    "boundary:2^w-1": 0.05,
-    "negative": 0.05,
-    "rejected_write": 0.15,
-    "enum_name_write": 0.03,
-    "bf_then_reg": 0.3,
+    "op:set_reg": 0.6,
+    "op:query": 0.4,
+    "roundtrip": 0.55,
+    "config_full": 0.25,
+    "config_diff": 0.25,
+    "boundary:2^w": 0.2,
+    "boundary:2^w-1": 0.15,
+    "negative": 0.2,
+    "rejected_write": 0.4,
+    "enum_name_write": 0.07,
+    "bf_then_reg": 0.2,
+    "group_write": 0.08,
 }
 
 _K = int.from_bytes(hashlib.sha512(b"c11 value spreader").digest(), "big") | 1
@@ -166,8 +175,9 @@ def _layout(draw):
             if not g["rev_order"] and draw(st.integers(0, 2)) == 0:
                 g["alt"] = sorted(sw * k for k in draw(st.sets(st.integers(1, nsub - 1), min_size=1, max_size=2)))
             member_fields = draw(st.integers(0, 3)) == 0
+            member_zero_reset = bool(g["alt"]) or draw(st.integers(0, 3)) != 0
             for _ in range(nsub):
-                reg = draw(_reg(len(lay["regs"]), cursor, sw, member_fields and draw(st.booleans()), bool(g["alt"])))
+                reg = draw(_reg(len(lay["regs"]), cursor, sw, member_fields and draw(st.booleans()), member_zero_reset))
                 reg["hidden"] = False
                 g["subs"].append(len(lay["regs"]))
                 lay["regs"].append(reg)
@@ -470,12 +480,6 @@ def _layout_usable(lay: dict) -> str:
     return ""
 
 
-def _overlapping(lay: dict) -> bool:
-    m = MFile(lay)
-    spans = sorted((t.offset, t.offset + t.width // 8) for t in m.top)
-    return any(a[1] > b[0] for a, b in zip(spans, spans[1:]))
-
-
 def _db_locate(d: dict):
     """(spec path, grouped register list) the way Registers.__init__ looks them up."""
     from spsdk.utils.database import get_db
@@ -649,6 +653,9 @@ class _Run:
         self.nontrivial = False
         self.names: Counter = Counter()
         self.nfail = 0
+        # real fuse files give many registers no byte offset: their binary image overlaps and is not used by any caller
+        spans = sorted((t.offset, t.offset + t.width // 8) for t in self.m.top)
+        self.overlap = any(a[1] > b[0] for a, b in zip(spans, spans[1:]))
         self._field_target = None
 
     # ---- plumbing
@@ -831,7 +838,8 @@ class _Run:
         snap = self.m.snapshot()
         v = None
         if how == "enum_name":
-            ename, v = self._pick(f.enums, op["v"]["x"])[:2]
+            ename = self._pick(f.enums, op["v"]["x"])[0]
+            v = f.enum_value(ename)  # a name the database uses twice stands for its first value
             val, cls = ename, _vclass(v, cfg_w)
             self.o.label("enum_name_write")
             fn = lambda: bf.set_enum_value(ename, raw)  # noqa: E731
@@ -917,6 +925,9 @@ class _Run:
         from spsdk.utils.misc import BinaryPattern
 
         o = self.o
+        if self.overlap:
+            o.label("overlapping_offsets_no_binary")
+            return
         o.label("roundtrip")
         if self.bf_written:
             self.nontrivial = True
@@ -991,6 +1002,9 @@ class _Run:
             self.resync()
 
     def op_parse(self, step: str, op: dict) -> None:
+        if self.overlap:
+            self.o.label("overlapping_offsets_no_binary")
+            return
         n = self.m.image_size() + op["extra"]
         data = _stretch(op["seed"], n)
         self.o.label("roundtrip")
@@ -1086,8 +1100,9 @@ class _Run:
             if g.alt and not g.view_unambiguous() and "alt_config" not in _STRICT:
                 o.label("alt_width_config_roundtrip_not_demanded")
                 return
-            if diff and any(s.init for s in g.subs) and "group_diff" not in _STRICT:
-                # a group has no reset value of its own; which member values a diff omits is not defined by the property
+            if diff and g.raw_value() == 0 and any(s.init for s in g.subs) and "group_diff" not in _STRICT:
+                # a group has no reset value of its own (it counts as 0): an all-zero group is left out of a diff although its
+                # members reset to something else. Not judged (the property does not define the reset value of a group).
                 o.label("group_diff_with_member_resets_not_demanded")
                 return
         exp, lost = self._config_expected(MFile(self.layout))
@@ -1141,8 +1156,8 @@ class _Run:
                     if fe["v"]["k"] == "bogus":
                         v, val = None, self._pick(["Invalid", "0xZZ", "12 34", "--1"], fe["v"]["x"])
                     elif form == "enum" and f.enums:
-                        en = self._pick(f.enums, fe["v"]["x"])
-                        v, val = en[1], en[0]
+                        val = self._pick(f.enums, fe["v"]["x"])[0]
+                        v = f.enum_value(val)
                         o.label("enum_name_write")
                     elif form == "RAW":
                         pre = False
@@ -1216,6 +1231,8 @@ class _Run:
         for q in op["which"]:
             if self.dead:
                 break
+            if self.overlap and q in ("image_info", "export"):
+                continue
             before = _digest(self.ob)
             o.label("query:" + q)
             with o.spsdk("readonly", "query:" + q):
@@ -1381,10 +1398,71 @@ def _db_case():
 
 
 def parts(ctx):
-    out = [HypPart("history", _case(), run_history, {"quick": 6000, "thorough": 300000}, stateful_steps=_MAX_STEPS)]
+    out = [HypPart("history", _case(), run_history, {"quick": 4000, "thorough": 300000}, stateful_steps=_MAX_STEPS)]
     if _db_catalog():
-        out.append(HypPart("db_history", _db_case, run_db_history, {"quick": 320, "thorough": 16000}, stateful_steps=_MAX_STEPS))
+        out.append(HypPart("db_history", _db_case, run_db_history, {"quick": 240, "thorough": 16000}, stateful_steps=_MAX_STEPS))
     return out
+
+
+def calibrate(ctx) -> None:
+    """The model must reproduce the worked examples of the repository's own documentation/tests of grouped registers
+    (tests/utils/test_registers.py: test_basic_grouped_register*, test_regs) - constants copied, nothing is executed from there."""
+    from vf.core import HarnessError
+
+    def grp(n, **kw):
+        lay = {"endian": "little", "fuse": False, "regs": [{"name": "M%d" % i, "uid": "m%d" % i, "offset": 4 * i, "width": 32, "fields": []} for i in range(n)],
+               "groups": [dict({"name": "G", "uid": "g", "subs": list(range(n))}, **kw)]}
+        m = MFile(lay)
+        return m, m.groups[0]
+
+    def members(m):
+        return [r.value for r in m.regs]
+
+    v = 0x01020304_11121314_21222324_31323334
+    m, g = grp(4)
+    g.write(v, raw=False)
+    ok = members(m) == [0x31323334, 0x21222324, 0x11121314, 0x01020304] and g.read(False) == v
+    m, g = grp(4, reversed=True)
+    g.write(v, raw=False)
+    ok = ok and members(m) == [0x04030201, 0x14131211, 0x24232221, 0x34333231] and g.read(False) == v
+    ok = ok and g.read(True).to_bytes(16, "big") == bytes.fromhex("34333231242322211413121104030201")
+    w = 0xCCDDEEFF8899AABB4455667700112233
+    plain = [0x00112233, 0x44556677, 0x8899AABB, 0xCCDDEEFF]
+    swapped = [0x33221100, 0x77665544, 0xBBAA9988, 0xFFEEDDCC]
+    m, g = grp(8, width=256)
+    g.write(w, raw=False)
+    ok = ok and members(m)[:4] == plain and g.read(False) == w
+    m, g = grp(8, width=256, rev_order=True)
+    g.write(w, raw=False)
+    ok = ok and members(m)[4:] == plain[::-1] and g.read(False) == w
+    m, g = grp(8, width=256, reversed=True)
+    g.write(w, raw=False)
+    ok = ok and members(m)[4:] == swapped[::-1] and g.read(False) == w
+    g.write(w, raw=True)
+    ok = ok and members(m)[:4] == plain and g.read(True) == w
+    m, g = grp(8, width=256, reversed=True, rev_order=True)
+    g.write(w, raw=False)
+    ok = ok and members(m)[:4] == swapped and g.read(False) == w
+    g.write(w, raw=True)
+    ok = ok and members(m)[4:] == plain[::-1] and g.read(True) == w
+    # bit-field arithmetic and the SHIFT_RIGHT processor (pfr: IPED start address, upper 24 bits of a 32-bit address)
+    lay = {"endian": "little", "fuse": False, "groups": [], "regs": [{"name": "R", "uid": "r", "offset": 0, "width": 32, "reset": 0x500, "fields": [
+        {"name": "A", "uid": "a", "off": 0, "width": 4}, {"name": None, "uid": "", "off": 4, "width": 4},
+        {"name": "B", "uid": "b", "off": 8, "width": 24, "shift": 8, "enums": [["X", 0x500]]}]}]}
+    m = MFile(lay)
+    r = m.regs[0]
+    ok = ok and r.fields[2].read() == 0x500 and r.fields[2].enum_name() == "X"
+    r.fields[2].write(0x12345678)
+    r.fields[0].write(0xF)
+    ok = ok and r.value == 0x1234560F and r.fields[2].read() == 0x12345600 and m.export() == bytes.fromhex("0f563412")
+    for bad in (16, -1):
+        try:
+            r.fields[0].write(bad)
+            ok = False
+        except Reject:
+            pass
+    if not ok:
+        raise HarnessError("C11 register model does not reproduce the documented examples")
 
 
 def extra_coverage(ctx, rec) -> dict:
